@@ -46,6 +46,14 @@ Setup ==
             [op |-> "SetDefault", h |-> "d2", u |-> AB],
             [op |-> "NewBundle", id |-> [p |-> "ex", ns |-> A, l |-> <<"b1">>], out |-> "sb"] >>
     [] Scenario \in {"c08", "c08b"} -> SetupWorld
+    [] Scenario = "c08c" ->      \* two kinds already share ex:x in b1, two relation kinds share ex:g in d1
+         SetupWorld \o
+         << NR("b1", "entity", <<NamePL("ex", X)>>, <<>>,
+               << <<NameQN("ex", A, <<"attr">>), [t |-> "int", v |-> "1"]>> >>),
+            NR("b1", "agent", <<NamePL("ex", X)>>, <<>>, <<>>),
+            NR("b1", "generation", <<>>, << <<"entity", Ref(NamePL("ex", X))>> >>, <<>>),
+            NR("d1", "generation", <<NamePL("ex", <<"g">>)>>, << <<"entity", Ref(NamePL("ex", X))>> >>, <<>>),
+            NR("d1", "invalidation", <<NamePL("ex", <<"g">>)>>, << <<"entity", Ref(NamePL("ex", X))>> >>, <<>>) >>
     [] Scenario = "c04" ->
          << [op |-> "NewDoc", out |-> "d1"], [op |-> "AddNs", h |-> "d1", p |-> "ex", u |-> A],
             [op |-> "NewDoc", out |-> "d2"], [op |-> "AddNs", h |-> "d2", p |-> "ex", u |-> A],
@@ -59,7 +67,7 @@ NSetup == Len(Setup)
 
 Init == ms = RunF(InitMs("empty"), Setup, NSetup) /\ hist = Setup
 
-Live == DOMAIN ms.con
+Live == {h \in DOMAIN ms.con : ms.con[h].kind # "loose"}
 Docs == {h \in Live : ms.con[h].kind = "doc"}
 Fresh == "n" \o ToString(Len(hist) + 1)
 
@@ -85,7 +93,7 @@ RecMenu ==
            [k |-> "generation", id |-> <<>>,
             formals |-> << <<"entity", Ref(NameBare(X))>>, <<"activity", Ref(NamePL("ex", Y))>> >>,
             extras |-> <<>>] }
-    [] Scenario \in {"c08", "c08b"} ->
+    [] Scenario \in {"c08", "c08b", "c08c"} ->
          { [k |-> k, id |-> <<i>>, formals |-> <<>>, extras |-> e]
              : k \in {"entity", "agent"}, i \in {NamePL("ex", X), NameQN("zz", A, X)},
                e \in { <<>>, << <<NameQN("ex", A, <<"attr">>), [t |-> "int", v |-> "1"]>> >>,
@@ -112,15 +120,18 @@ RecMenu ==
             formals |-> << <<"entity", Ref(NameQN("ex", A, X))>> >>, extras |-> <<>>],
            [k |-> "generation", id |-> <<>>, formals |-> << <<"entity", Ref(NameQN("ex", A, Y))>> >>, extras |-> <<>>] }
     [] Scenario = "c12" ->
-         { [k |-> "entity", id |-> <<NamePL("ex", Y)>>, formals |-> <<>>, extras |-> <<>>] }
+         { [k |-> "entity", id |-> <<NamePL("ex", Y)>>, formals |-> <<>>, extras |-> <<>>],
+           [k |-> "entity", id |-> <<NamePL("ex", X)>>, formals |-> <<>>,
+            extras |-> << <<NameQN("ex", A, <<"attr">>), [t |-> "int", v |-> "0"]>> >>] }
 
 Targets ==
   CASE Scenario = "c08" -> {"d1", "b1"}
     [] Scenario = "c08b" -> {"b1"}
+    [] Scenario = "c08c" -> {"b1"}
     [] OTHER -> Live
 
 ActsNewRec == { NR(h, t.k, t.id, t.formals, t.extras) : h \in Targets \cap Live, t \in RecMenu }
-RecHandles == UNION { {[c |-> h, i |-> i] : i \in 1..(IF Len(ms.con[h].recs) > 2 THEN 2 ELSE Len(ms.con[h].recs))} : h \in Live }
+RecHandles == UNION { {[c |-> h, i |-> i] : i \in 1..(IF Len(ms.con[h].recs) > 2 THEN 2 ELSE Len(ms.con[h].recs))} : h \in DOMAIN ms.con }
 ActsAddRecord == { [op |-> "AddRecord", h |-> h, r |-> r] : h \in Live, r \in RecHandles }
 ActsUpdate == { a \in { [op |-> "Update", h |-> h, other |-> o] : h \in Live, o \in Live } : a.h # a.other }
 Standalone == {h \in Live : ms.con[h].doc = "" /\ (ms.con[h].kind = "bun" \/ h \in {"d1", "d2"})}
@@ -135,6 +146,7 @@ ActsDerive == { [op |-> o, h |-> h, out |-> Fresh]
 ActsGet == { [op |-> "GetRecord", h |-> h, id |-> i[1]] : h \in Live, i \in IdSpellings }
 ActsNs == { [op |-> "AddNs", h |-> h, p |-> "ex", u |-> u] : h \in Live, u \in {AB} }
           \cup { [op |-> "SetDefault", h |-> h, u |-> A] : h \in {x \in Live : ms.mgr[ms.con[x].mgr].dflt \in {NONE, A}} }
+ActsCopy == { [op |-> "CopyRec", r |-> r, out |-> Fresh] : r \in RecHandles }
 ActsMutate ==   \* C12 follow-up mutators on any live object
   { [op |-> "AddAttrs", r |-> r, form |-> "pairs",
      pairs |-> << <<NameQN("ex", A, <<"attr">>), [t |-> "int", v |-> "7"]>> >>] : r \in RecHandles }
@@ -151,9 +163,9 @@ Menu ==
                            \cup ActsDerive \cup ActsGet
     [] Scenario = "c09" -> ActsNewRec \cup ActsUpdate \cup ActsAddBundle \cup ActsBundle
                            \cup {a \in ActsDerive : a.op = "Flattened"}
-    [] Scenario \in {"c08", "c08b"} -> ActsNewRec \cup {a \in ActsDerive : a.op = "Unified"}
+    [] Scenario \in {"c08", "c08b", "c08c"} -> ActsNewRec \cup {a \in ActsDerive : a.op = "Unified"}
     [] Scenario = "c12" -> ActsNewRec \cup ActsAddRecord \cup ActsUpdate \cup ActsAddBundle
-                           \cup ActsDerive \cup ActsMutate
+                           \cup ActsDerive \cup ActsMutate \cup ActsCopy
 
 (* documents are only derived from containers (flattened/unified are document or bundle methods) *)
 Applicable(a) ==
@@ -184,5 +196,5 @@ PropC04 ==
                  post |-> [con |-> ObsCon(ms)]]
        IN \A cl \in {C04_refl(o), C04_sym(o), C04_ne(o), C04_trans(o), C04_content(o)} : cl.ok]_vars
 
-IndexOK == \A h \in DOMAIN ms.con : IndexCoherent(ms.con[h])
+IndexOK == \A h \in DOMAIN ms.con : ms.con[h].kind # "loose" => IndexCoherent(ms.con[h])
 =============================================================================
